@@ -1,13 +1,264 @@
-//! C05 seeds, field inventory and entry points for "ptch" (stub: not built yet).
-use crate::seed::{Aux, Seed};
-use crate::worker::Runner;
+//! C05 seeds, field inventory and entry points for "ptch" (PTCH patch files of MPQ patch chains).
+//!
+//! The crate has a PTCH parser (patch/header.rs) and an applier (patch/apply.rs) but no writer,
+//! so the seeds are produced by a small independent encoder written from the parser's layout:
+//!
+//!   0   'PTCH'  patch_data_size  size_before  size_after                     (16 bytes)
+//!   16  'MD5_'  block_size(=40, includes the 8-byte block header)  md5_before[16]  md5_after[16]
+//!   56  'XFRM'  block_size(=12 + payload)  patch_type('COPY' | 'BSD0')
+//!   68  payload: COPY = the complete new file
+//!                BSD0 = u32 unpacked size, then RLE stream (0x80|n-1: n literals; 0x00..0x7F: n+1
+//!                zeros) of a bsdiff40 image: 'BSDIFF40', ctrl_size u64, diff_size u64, new_size
+//!                u64, ctrl triples (add u32, copy u32, seek u32 with 0x80000000 = negative),
+//!                diff block, extra block.
+//!
+//! The RLE encoder keeps the bsdiff40 header and the control block in literal runs (aligned to 128
+//! bytes of unpacked data, so that no 4/8-byte field straddles a run), which makes every field of
+//! the unpacked image addressable in the file; the diff/extra blocks use zero runs where they pay.
+use crate::seed::{Aux, ChunkSeq, Seed};
+use crate::worker::{errname, Runner};
+use wow_mpq::patch::{apply_patch, PatchFile};
 
-pub fn seed_names(_thorough: bool) -> Vec<String> {
-    Vec::new()
+pub fn seed_names(thorough: bool) -> Vec<String> {
+    let mut v = vec!["copy".to_string(), "bsd0".to_string()];
+    if thorough {
+        v.push("bsd0-seek".into());
+    }
+    v
+}
+
+/// Deterministic, mildly structured content.
+fn content(n: usize, salt: u32) -> Vec<u8> {
+    let mut x = 0x9E37_79B9u32 ^ salt.wrapping_mul(0x85EB_CA6B);
+    (0..n)
+        .map(|i| {
+            x = x.wrapping_mul(1_664_525).wrapping_add(1_013_904_223);
+            if i % 16 < 10 {
+                b"WorldOfWarcraft\\Data\\patch"[(i + salt as usize) % 26]
+            } else {
+                (x >> 24) as u8
+            }
+        })
+        .collect()
+}
+
+fn put32(d: &mut Vec<u8>, v: u32) {
+    d.extend_from_slice(&v.to_le_bytes());
+}
+
+/// RLE-pack `img`; bytes below `literal_upto` are emitted as literal runs aligned to 128 unpacked
+/// bytes. Returns the packed stream (without the size prefix) and, per unpacked byte, its position
+/// in the packed stream when it is stored literally.
+fn rle_pack(img: &[u8], literal_upto: usize) -> (Vec<u8>, Vec<Option<usize>>) {
+    let mut out = Vec::new();
+    let mut map = vec![None; img.len()];
+    let mut p = 0usize;
+    let lit_end = literal_upto.min(img.len());
+    while p < lit_end {
+        let n = (lit_end - p).min(128);
+        out.push(0x80 | (n as u8 - 1));
+        for k in 0..n {
+            map[p + k] = Some(out.len());
+            out.push(img[p + k]);
+        }
+        p += n;
+    }
+    while p < img.len() {
+        // zero run of at least 3 bytes -> skip opcode
+        let mut z = 0;
+        while p + z < img.len() && img[p + z] == 0 && z < 128 {
+            z += 1;
+        }
+        if z >= 3 {
+            out.push((z - 1) as u8);
+            p += z;
+            continue;
+        }
+        // literal run up to the next zero run of >= 3 (or 128 bytes)
+        let mut n = 0;
+        while p + n < img.len() && n < 128 {
+            if img[p + n] == 0 && p + n + 2 < img.len() && img[p + n + 1] == 0 && img[p + n + 2] == 0 {
+                break;
+            }
+            n += 1;
+        }
+        let n = n.max(1);
+        out.push(0x80 | (n as u8 - 1));
+        for k in 0..n {
+            map[p + k] = Some(out.len());
+            out.push(img[p + k]);
+        }
+        p += n;
+    }
+    (out, map)
+}
+
+/// One bsdiff control step: `add` bytes = diff + old, `extra` new bytes, then seek in old.
+struct Step {
+    add: usize,
+    extra: Vec<u8>,
+    /// signed seek applied to the old-file cursor after the step
+    seek: i64,
+}
+
+/// Build the target file and the bsdiff40 image for `base` under `steps`; `tweak(i)` is the
+/// byte difference put on the i-th byte of the new file inside an add region (mostly 0).
+fn bsdiff_image(base: &[u8], steps: &[Step]) -> (Vec<u8>, Vec<u8>, usize) {
+    let mut new = Vec::new();
+    let mut ctrl = Vec::new();
+    let mut diff = Vec::new();
+    let mut extra = Vec::new();
+    let mut old = 0usize;
+    for s in steps {
+        for j in 0..s.add {
+            let d: u8 = if (new.len() % 37) == 5 { 0x11 } else { 0 };
+            let o = if old + j < base.len() { base[old + j] } else { 0 };
+            diff.push(d);
+            new.push(o.wrapping_add(d));
+        }
+        old += s.add;
+        new.extend_from_slice(&s.extra);
+        extra.extend_from_slice(&s.extra);
+        put32(&mut ctrl, s.add as u32);
+        put32(&mut ctrl, s.extra.len() as u32);
+        if s.seek < 0 {
+            put32(&mut ctrl, 0x8000_0000u32.wrapping_add((-s.seek) as u32));
+            old = old.saturating_sub((-s.seek) as usize);
+        } else {
+            put32(&mut ctrl, s.seek as u32);
+            old += s.seek as usize;
+        }
+    }
+    let mut img = Vec::new();
+    img.extend_from_slice(b"BSDIFF40");
+    img.extend_from_slice(&(ctrl.len() as u64).to_le_bytes());
+    img.extend_from_slice(&(diff.len() as u64).to_le_bytes());
+    img.extend_from_slice(&(new.len() as u64).to_le_bytes());
+    let ctrl_len = ctrl.len();
+    img.extend_from_slice(&ctrl);
+    img.extend_from_slice(&diff);
+    img.extend_from_slice(&extra);
+    (new, img, ctrl_len)
+}
+
+fn header(patch_size: u32, base: &[u8], new: &[u8], xfrm_payload: usize, ty: &[u8; 4]) -> Vec<u8> {
+    let mut d = Vec::new();
+    d.extend_from_slice(b"PTCH");
+    put32(&mut d, patch_size);
+    put32(&mut d, base.len() as u32);
+    put32(&mut d, new.len() as u32);
+    d.extend_from_slice(b"MD5_");
+    put32(&mut d, 40);
+    d.extend_from_slice(&wverif_common::md5_raw(base));
+    d.extend_from_slice(&wverif_common::md5_raw(new));
+    d.extend_from_slice(b"XFRM");
+    put32(&mut d, 12 + xfrm_payload as u32);
+    d.extend_from_slice(ty);
+    d
+}
+
+const PAYLOAD: usize = 68;
+
+fn header_fields(s: &mut Seed) {
+    let len = s.bytes.len();
+    s.field_ex(0, 4, "tag", "PTCH.tag", 16, 1, None);
+    s.field_ex(4, 4, "bsize", "PTCH.patch_size", PAYLOAD, 1, None);
+    s.field_ex(8, 4, "bsize", "PTCH.size_before", PAYLOAD, 1, None);
+    s.field_ex(12, 4, "bsize", "PTCH.size_after", PAYLOAD, 1, None);
+    s.field_ex(16, 4, "tag", "MD5_.tag", 16, 1, None);
+    s.field_ex(20, 4, "csize", "MD5_.size", 16, 1, None);
+    s.field_ex(56, 4, "tag", "XFRM.tag", 56, 1, None);
+    s.field_ex(60, 4, "csize", "XFRM.size", 56, 1, None);
+    s.field_ex(64, 4, "tag", "XFRM.patch_type", PAYLOAD, 1, None);
+    // the MD5_ and XFRM blocks as a sibling sequence (sizes include the block headers)
+    s.seqs.push(ChunkSeq { name: "top".into(), items: vec![(16, 40), (56, len - 56)], parent_size_fields: vec![] });
+}
+
+fn build_bsd0(name: &str, base: Vec<u8>, steps: Vec<Step>) -> Seed {
+    let (new, img, ctrl_len) = bsdiff_image(&base, &steps);
+    let (packed, map) = rle_pack(&img, 32 + ctrl_len);
+    let mut d = header(img.len() as u32, &base, &new, 4 + packed.len(), b"BSD0");
+    put32(&mut d, img.len() as u32);
+    let stream = d.len();
+    d.extend_from_slice(&packed);
+    let mut s = Seed::new("ptch", name, d);
+    header_fields(&mut s);
+    s.field_ex(PAYLOAD, 4, "bsize", "rle.unpacked_size", stream, 1, None);
+    // first RLE opcode (run length selector)
+    s.field_ex(stream, 1, "index", "rle.op[0]", stream + 1, 1, None);
+    let at = |p: usize, w: usize| -> usize {
+        let o = map[p].unwrap_or_else(|| wverif_common::tool_error("ptch: field not literal"));
+        for k in 1..w {
+            if map[p + k] != Some(o + k) {
+                wverif_common::tool_error("ptch: field straddles an RLE run");
+            }
+        }
+        stream + o
+    };
+    // bsdiff40 header; the extent base of the sizes is the place in the file where the unpacked
+    // control block starts (sizes of the unpacked image are not file extents: rem is only a guide)
+    let cbase = at(32, 1);
+    s.field_ex(at(8, 8), 8, "bsize", "bsdiff.ctrl_size", cbase, 1, None);
+    s.field_ex(at(16, 8), 8, "bsize", "bsdiff.diff_size", cbase, 1, None);
+    s.field_ex(at(24, 8), 8, "bsize", "bsdiff.new_size", cbase, 1, None);
+    let n = ctrl_len / 12;
+    for i in 0..n {
+        if i >= 2 && i + 1 != n {
+            continue;
+        }
+        let p = 32 + 12 * i;
+        s.field_ex(at(p, 4), 4, "bsize", format!("ctrl[{i}].add"), cbase, 1, None);
+        s.field_ex(at(p + 4, 4), 4, "bsize", format!("ctrl[{i}].copy"), cbase, 1, None);
+        s.field_ex(at(p + 8, 4), 4, "offset", format!("ctrl[{i}].seek"), cbase, 1, None);
+    }
+    s.aux = Aux::Base(base);
+    s
 }
 
 pub fn build(name: &str) -> Seed {
-    wverif_common::tool_error(&format!("ptch: unknown seed {name}"))
+    match name {
+        "copy" => {
+            let base = content(300, 1);
+            let new = content(420, 2);
+            let mut d = header(new.len() as u32, &base, &new, new.len(), b"COPY");
+            d.extend_from_slice(&new);
+            let mut s = Seed::new("ptch", name, d);
+            header_fields(&mut s);
+            s.aux = Aux::Base(base);
+            s
+        }
+        "bsd0" => {
+            let base = content(640, 3);
+            let steps = vec![
+                Step { add: 220, extra: content(48, 4), seek: 30 },
+                Step { add: 300, extra: content(20, 5), seek: 0 },
+            ];
+            build_bsd0(name, base, steps)
+        }
+        "bsd0-seek" => {
+            // four steps: forward seek, a rewind to the start of the old file (the only negative
+            // seek on which the reference semantics and this implementation agree), a tail step
+            let base = content(900, 6);
+            let steps = vec![
+                Step { add: 180, extra: content(16, 7), seek: 120 },
+                Step { add: 260, extra: Vec::new(), seek: -560 },
+                Step { add: 400, extra: content(64, 8), seek: 17 },
+                Step { add: 90, extra: content(5, 9), seek: 0 },
+            ];
+            build_bsd0(name, base, steps)
+        }
+        _ => wverif_common::tool_error(&format!("ptch: unknown seed {name}")),
+    }
 }
 
-pub fn run(_r: &mut Runner, _bytes: &[u8], _aux: &Aux) {}
+pub fn run(r: &mut Runner, bytes: &[u8], aux: &Aux) {
+    let empty: Vec<u8> = Vec::new();
+    let base: &[u8] = match aux {
+        Aux::Base(b) => b,
+        _ => &empty,
+    };
+    let p = r.call("PatchFile::parse", || PatchFile::parse(bytes).map_err(errname));
+    if let Some(p) = p {
+        r.call("apply_patch", || apply_patch(&p, base).map(|_| ()).map_err(errname));
+    }
+}
